@@ -54,11 +54,33 @@ fn parse_outer_header(data: &[u8]) -> Result<KDBX3Header, DatabaseOpenError> {
         //   entry_buffer: [u8; entry_length]       // the entry buffer
         // )
 
+        if data.len() < pos + 3 {
+            return Err(DatabaseIntegrityError::IncompleteOuterHeader {
+                missing_field: "End of header".into(),
+            }
+            .into());
+        }
         let entry_type = data[pos];
         let entry_length: usize = LittleEndian::read_u16(&data[pos + 1..(pos + 3)]) as usize;
+        if data.len() - (pos + 3) < entry_length {
+            return Err(DatabaseIntegrityError::IncompleteOuterHeader {
+                missing_field: "End of header".into(),
+            }
+            .into());
+        }
         let entry_buffer = &data[(pos + 3)..(pos + 3 + entry_length)];
 
         pos += 3 + entry_length;
+
+        // fixed-width fields must have their width
+        let min_length = match entry_type {
+            3 | 10 => 4,
+            6 => 8,
+            _ => 0,
+        };
+        if entry_length < min_length {
+            return Err(DatabaseIntegrityError::InvalidOuterHeaderEntry { entry_type }.into());
+        }
 
         match entry_type {
             // END - finished parsing header
@@ -231,7 +253,9 @@ pub(crate) fn decrypt_kdbx3(
         .decrypt(payload_encrypted)?;
 
     // Check if we decrypted correctly
-    if &payload[0..header.stream_start.len()] != header.stream_start.as_slice() {
+    if payload.len() < header.stream_start.len()
+        || &payload[0..header.stream_start.len()] != header.stream_start.as_slice()
+    {
         return Err(DatabaseKeyError::IncorrectKey.into());
     }
 
@@ -252,6 +276,10 @@ pub(crate) fn decrypt_kdbx3(
         // )
 
         // let block_id = LittleEndian::read_u32(&payload[pos..(pos + 4)]);
+        // a block cut short cannot match its hash
+        if payload.len() < pos + 40 {
+            return Err(BlockStreamError::BlockHashMismatch { block_index }.into());
+        }
         let block_hash = &payload[(pos + 4)..(pos + 36)];
         let block_size = LittleEndian::read_u32(&payload[(pos + 36)..(pos + 40)]) as usize;
 
@@ -260,6 +288,9 @@ pub(crate) fn decrypt_kdbx3(
             break;
         }
 
+        if payload.len() - (pos + 40) < block_size {
+            return Err(BlockStreamError::BlockHashMismatch { block_index }.into());
+        }
         let block_buffer_compressed = &payload[(pos + 40)..(pos + 40 + block_size)];
 
         // Test block hash
